@@ -125,14 +125,17 @@ namespace Pistache::Tcp
                     auto tag = entry.getTag();
                     auto fd  = static_cast<Fd>(tag.value());
 
+                    // The peer may have gone away while its input was handled; its descriptor
+                    // number may even belong already to a connection the acceptor has queued
+                    // for this worker (toWrite is prepared by the acceptor thread).
+                    if (entry.isReadable() && !isPeerFd(tag))
+                        continue;
+
                     {
                         Guard guard(toWriteLock);
                         auto it = toWrite.find(fd);
                         if (it == std::end(toWrite))
                         {
-                            // the peer went away while its input was handled
-                            if (entry.isReadable())
-                                continue;
                             throw std::runtime_error(
                                 "Assertion Error: could not find write data");
                         }
